@@ -6,7 +6,7 @@ import traceback
 import z3
 
 from . import solver as solver_mod
-from .ctx import Ctx, Stats, explore
+from .ctx import BudgetExceeded, Ctx, Stats, explore
 from .interp import Interp
 from .values import (ContractOutOfDate, FuncV, GenV, OutsideSubset, PathEnd,
                      PyExc, Sym, mk, BoundMethod)
@@ -180,6 +180,20 @@ class Session(object):
             return []
         except ContractOutOfDate as e:
             self.errors.append((label, 'contract-out-of-date', str(e)))
+            return []
+        except BudgetExceeded as e:
+            self.errors.append((label, 'budget-exceeded', str(e)))
+            return []
+        except PyExc as e:
+            self.errors.append((label, 'uncaught-exception-in-vc-driver',
+                                repr(e)))
+            return []
+        except (KeyError, AttributeError, IndexError, TypeError) as e:
+            # a contract / invariant / monitor refers to a local, attribute or
+            # call shape that the code no longer has
+            import traceback
+            self.errors.append((label, 'contract-out-of-date',
+                                '%r at %s' % (e, traceback.format_exc().strip().split('\n')[-3].strip())))
             return []
         n = 0
         for c in ctxs:
